@@ -36,7 +36,7 @@ ASSUMPTIONS = [
 	"ties: any maximising (offset, overlap) is accepted; equal strand scores "
 	"may report either strand",
 ]
-REQUIRED = {"inplace_list_calls": 3, "corner_calls": 5, "pairs_judged": 200, "pairs_query_longer": 20,
+REQUIRED = {"many_query_calls": 1, "inplace_list_calls": 3, "corner_calls": 5, "pairs_judged": 200, "pairs_query_longer": 20,
 	"pairs_query_shorter": 20, "monotonicity_pairs": 1000,
 	"self_matches": 5, "rc_swaps": 5, "hashing_calls": 3,
 	"hashing_constant_row_calls": 2}
@@ -240,6 +240,8 @@ def judge_call(cls, params, rec, TT, Qs, Ts, kw, desc, tag=""):
 
 
 def run_case(cls, params, rec):
+	if params.get("kind") == "many":
+		return case_many(cls, params, rec)
 	from tangermeme.tools import tomtom as TT
 	r = gen.pyrng("C14", params["cseed"])
 	nr = gen.nprng("C14", params["cseed"])
@@ -403,6 +405,50 @@ def run_case(cls, params, rec):
 	rec.held(cls, params, nontrivial=nl and ns and partial)
 
 
+def case_many(cls, params, rec):
+	"""A call with more than 2**15 concatenated query columns: the rows of
+	queries near the end, around the 2**15 boundary and at the start are
+	judged through a call of their own (compared with the reference pair by
+	pair) and must be the rows the large call reports."""
+	from tangermeme.tools import tomtom as TT
+	r = gen.pyrng("C14many", params["cseed"])
+	nr = gen.nprng("C14many", params["cseed"])
+	Qs = [make_pwm(nr, r, r.randint(8, 12), "fine")
+		for _ in range(params["n_q"])]
+	Ts = [make_pwm(nr, r, r.randint(4, 14), "fine")
+		for _ in range(params["n_t"])]
+	kw = dict(n_score_bins=params["n_score_bins"], n_target_bins=None,
+		reverse_complement=params["rc"])
+	csum = numpy.cumsum([0] + [q.shape[1] for q in Qs])
+	desc = {"n_queries": len(Qs), "total_query_columns": int(csum[-1]),
+		"target_lengths": [t.shape[1] for t in Ts], "rc": params["rc"],
+		"n_score_bins": params["n_score_bins"], "cseed": params["cseed"]}
+	st, big = gen.call(TT.tomtom, Qs, Ts, n_jobs=-1, **kw)
+	if st == "raise":
+		rec.violation(cls, params, dict(desc, what="tomtom raised",
+			error=repr(big)[:300]), mech="C14/raised")
+		return
+	big = big.numpy()
+	i15 = int(numpy.searchsorted(csum, 2 ** 15))
+	for g in ([0, 1, 2], list(range(i15 - 2, i15 + 2)), list(range(len(Qs)
+		- 4, len(Qs)))):
+		out = judge_call(cls, params, rec, TT, [Qs[i] for i in g], Ts, kw,
+			dict(desc, queries_judged=g), tag=" (queries %s on their own)" % g)
+		if out is None:
+			return
+		small = out[0]
+		if numpy.abs(big[0][g] - small[0]).max() > 1e-9 or not \
+			numpy.array_equal(big[1:, g], small[1:]):
+			rec.violation(cls, params, dict(desc, what="rows of queries %s "
+				"in the large call differ from the rows that match the "
+				"reference" % g, first_column_of_first_query=int(csum[g[0]]),
+				max_abs_p_diff=float(numpy.abs(big[0][g] - small[0]).max())),
+				mech="C14/score")
+			return
+	rec.count("many_query_calls")
+	rec.held(cls, params, nontrivial=True)
+
+
 def gen_params(seed, k):
 	r = gen.pyrng("C14p", seed, k)
 	return {"cseed": r.randrange(10 ** 9), "n_q": r.randint(1, 8),
@@ -424,10 +470,19 @@ def plan(tier, seed):
 			env = {"NUMBA_BOUNDSCHECK": "1"}
 		units.append({"cls": "calls", "k0": k0, "k1": min(n, k0 + per),
 			"seed": seed, "weight": per, "env": env})
+	for j in range(1 if tier == "quick" else 4):
+		units.append({"cls": "many", "j": j, "seed": seed, "weight": per})
 	return units
 
 
 def run_unit(unit, rec):
+	if unit["cls"] == "many":
+		r = gen.pyrng("C14manyp", unit["seed"], unit["j"])
+		run_case("tomtom-many-queries", {"kind": "many",
+			"cseed": r.randrange(10 ** 9), "n_q": 3400 + r.randint(0, 400),
+			"n_t": r.randint(2, 4), "rc": r.random() < .5,
+			"n_score_bins": r.choice([50, 100])}, rec)
+		return
 	bc = bool(unit.get("env", {}).get("NUMBA_BOUNDSCHECK"))
 	if bc:
 		rec.count("boundscheck_units")
